@@ -159,7 +159,56 @@ func (c *Ctx) goWG(rule string, s *goSite, clause string) {
 			}
 		}
 		if !mentionsDone {
-			continue
+			// a goroutine launched right after w.Add (same block, or a loop in that block) that does
+			// not itself wait on w is a worker of w even when it says nothing about w: it is the
+			// missing Done that has to be reported
+			waits, addNear := false, false
+			for _, call := range callsIn(s.lit.Body, true) {
+				if methodCallOn(info, call, "Wait") == w {
+					waits = true
+				}
+			}
+			// Add(1) sits in the same statement list as the `go` statement (typically a loop body);
+			// Add(n) sits in the statement list that holds the loop launching the n goroutines
+			ast.Inspect(s.launcher, func(n ast.Node) bool {
+				blk, ok := n.(*ast.BlockStmt)
+				if !ok || n == ast.Node(s.lit.Body) {
+					return n != ast.Node(s.lit)
+				}
+				for _, st := range blk.List {
+					es, ok := st.(*ast.ExprStmt)
+					if !ok {
+						continue
+					}
+					call, ok := es.X.(*ast.CallExpr)
+					if !ok || methodCallOn(info, call, "Add") != w || es.Pos() >= s.stmt.Pos() || len(call.Args) != 1 {
+						continue
+					}
+					one := false
+					if tv, ok := info.Types[call.Args[0]]; ok && tv.Value != nil && tv.Value.String() == "1" {
+						one = true
+					}
+					for _, st2 := range blk.List {
+						if st2.Pos() <= es.Pos() || !nodeContains(st2, s.stmt.Pos()) {
+							continue
+						}
+						switch st2.(type) {
+						case *ast.GoStmt:
+							if one && st2 == ast.Stmt(s.stmt) {
+								addNear = true
+							}
+						case *ast.ForStmt, *ast.RangeStmt:
+							if !one {
+								addNear = true
+							}
+						}
+					}
+				}
+				return true
+			})
+			if waits || !addNear {
+				continue
+			}
 		}
 		fg := c.cfgOf(info, s.lit.Body)
 		res := mustPassFromEntry(fg, func(n ast.Node) bool {
